@@ -246,7 +246,8 @@ class Projector:
                 self.anom.append('ctc=?obj:' + type(c).__name__)
                 continue
             a = c.ast
-            ctcs.append({'name': aesc(c.name) if isinstance(c.name, str) else '?n:<%s>' % type(c.name).__name__,
+            abs_ctc = getattr(self.naming, 'abs_ctc', None)
+            ctcs.append({'name': (abs_ctc(c.name) if abs_ctc else aesc(c.name)) if isinstance(c.name, str) else '?n:<%s>' % type(c.name).__name__,
                          'ast': self.ast(a.root if isinstance(a, AST) else None)})
         proj = {'root': rootname, 'feats': feats, 'rels': rels, 'ctcs': ctcs}
         return proj, fobjs, robjs
